@@ -237,6 +237,101 @@ def bep_rules(run, repo):
             # of either direction in lists; the getters are the documented ones of the parent class)
             n += bep_instance(run, repo, repo.cls('pmutt.omkm.reaction.BEP'), desc, None,
                               ' [pmutt.omkm.reaction.BEP serving SurfaceReactions]', rqual=SURF)
+    n += bep_reassigned(run, repo, bci)
+    return n
+
+
+# Histories of one relation object whose public settings are re-assigned (bep.descriptor = ..., bep.slope = ...,
+# bep.intercept = ...) after it has been asked.  Each step: (attribute, value or None for "a new symbol", ask afterwards?).
+# The chains cross the delta_* <-> rev_delta_* boundary in both directions with the slope unchanged, stay inside one
+# family, leave it for the state descriptors and come back, re-assign twice WITHOUT a question in between, re-assign the
+# slope and the intercept, and return to the first setting.
+BEP_HISTORIES = (
+    ('delta_H', True, (('descriptor', 'rev_delta_H', True), ('descriptor', 'delta_E', False),
+                       ('descriptor', 'rev_delta_E', True), ('descriptor', 'products_H', True),
+                       ('descriptor', 'delta_H', True), ('slope', None, True), ('descriptor', 'rev_delta_H', True),
+                       ('intercept', None, True), ('descriptor', 'delta_E', True))),
+    ('rev_delta_E', True, (('descriptor', 'delta_E', True), ('slope', None, False), ('descriptor', 'rev_delta_H', True),
+                           ('descriptor', 'reactants_E', False), ('descriptor', 'delta_H', True))),
+    # never asked before the first re-assignment
+    ('rev_delta_H', False, (('descriptor', 'delta_H', True), ('descriptor', 'rev_delta_H', True))),
+)
+
+
+def bep_reassigned(run, repo, bci, rqual='pmutt.reaction.Reaction'):
+    """instance 'settings re-assigned on a relation that was asked before': after any sequence of questions and of
+    assignments to the public settings of one BEP object, its barriers (either direction, dimensional and over RT) and
+    its transition-state enthalpy are those of a BEP freshly constructed with the settings the object shows now.  A
+    memo keyed on everything the answer depends on (or dropped on assignment) satisfies this; nothing is said about
+    whether a memo exists"""
+    n = 0
+    owner, fn = repo.find_method(bci, 'get_E_act')
+    from .common import pub
+    for first, ask_first, steps in BEP_HISTORIES:
+        I = Interp(repo)
+        D = I.D
+        kw = {'T': D.sym('T'), 'P': D.sym('P')}
+        rxn, rs, ps, ts = reaction(I, repo, rqual, nts=0)
+        bep = I.construct(bci, [], {'slope': D.sym('bep.slope'), 'intercept': D.sym('bep.intercept'), 'name': 'bep',
+                                    'descriptor': first}, name='bep')
+        if isinstance(bep, Raised):
+            raise Unsupported('BEP(slope, intercept, name, descriptor=%r) raised %s' % (first, bep.exc))
+        set_public(I, rxn, 'transition_state', ListV([bep]))
+        set_public(I, rxn, 'transition_state_stoich', ListV([C(1)]))
+
+        def answers(obj):
+            out = []
+            for rev in (False, True):
+                out.append(('get_E_act(kcal/mol, rev=%s)' % rev,
+                            I.call_method(obj, 'get_E_act', [], dict(kw, units='kcal/mol', reaction=rxn, rev=rev))))
+                out.append(('get_EoRT_act(rev=%s)' % rev,
+                            I.call_method(obj, 'get_EoRT_act', [], dict(kw, reaction=rxn, rev=rev))))
+            out.append(('get_HoRT', I.call_method(obj, 'get_HoRT', [], dict(kw, reaction=rxn))))
+            return out
+
+        if ask_first:
+            answers(bep)
+        history = 'BEP(descriptor=%r)%s' % (first, ', asked' if ask_first else '')
+        k = 0
+        for attr, value, ask in steps:
+            if value is None:
+                k += 1
+                value = D.sym('bep.%s%d' % (attr, k))
+                history += '; %s = another value' % attr
+            else:
+                history += '; %s = %r' % (attr, value)
+            set_public(I, bep, attr, value)
+            if not ask:
+                continue
+            history += ', asked'
+            # what a user reads on the object now is what a fresh relation is constructed with
+            now = {a: pub(bep, a) for a in ('slope', 'intercept', 'descriptor')}
+            fresh = I.construct(bci, [], dict(now, name='bep'), name='fresh')
+            if isinstance(fresh, Raised):
+                raise Unsupported('BEP(**public settings of the object) raised %s' % fresh.exc)
+            got, want = answers(bep), answers(fresh)
+            for (what, g), (_w, w) in zip(got, want):
+                ok = isinstance(g, Rat) and isinstance(w, Rat) and same(g, w)
+                run.check(ok, 'HIST.bep-reassigned', 'BEP.get_E_act',
+                          'settings re-assigned on a relation that was asked before | %s | %s' % (history, what),
+                          '%s of a BEP object after the history [%s] is %s, but a BEP freshly constructed with the '
+                          'settings the object shows now (descriptor=%r) gives %s: forward and reverse barriers must '
+                          'follow the descriptor, slope and intercept of the moment they are asked for'
+                          % (what, history, show(g, 200), now['descriptor'], show(w, 200)), owner.module, fn)
+                n += 1
+            if 'delta' in str(now['descriptor']):
+                q = 'get_HoRT' if str(now['descriptor']).endswith('_H') else 'get_EoRT'
+                Rk = D.sym('kb') * D.sym('Na') * D.sym('U<kcal>')
+                dq = expected_delta(I, rxn, q, kw, False, False) * Rk * kw['T']
+                Ef, Er = got[0][1], got[2][1]
+                run.check(isinstance(Ef, Rat) and isinstance(Er, Rat) and same(Ef - Er, dq), 'ALG.bep-difference',
+                          'BEP.get_E_act',
+                          'settings re-assigned on a relation that was asked before | %s' % history,
+                          'after the history [%s] forward minus reverse barrier is %s, not the reaction %s %s'
+                          % (history, show(Ef - Er, 200) if isinstance(Ef, Rat) and isinstance(Er, Rat) else '?',
+                             'enthalpy' if q == 'get_HoRT' else 'electronic energy', show(dq, 200)),
+                          owner.module, fn)
+                n += 1
     return n
 
 
@@ -888,6 +983,14 @@ MUTANTS += [
     {'name': 'Surface get_A repeats the site density by the coefficient itself (a float for parsed reactions)',
      'expect': ('REF.A', 'SurfaceReaction.get_A'),
      'edits': [(O_, "                    continue\n                site_dens.extend([site_den] * int(stoich))", "                    continue\n                site_dens.extend([site_den] * stoich)")]},
+]
+# round 7 (black box): the instance 'settings re-assigned on a relation that was asked before' has its change here
+MUTANTS += [
+    {'name': 'BEP adjusted slope memoised per (rev, slope): the descriptor is not in the key',
+     'expect': ('HIST.bep-reassigned', 'BEP.get_E_act'),
+     'edits': [(B_, "        self.elements = elements\n        self.notes = notes\n", "        self.elements = elements\n        self.notes = notes\n        self._adj_slopes = {}\n"),
+               (B_, "        # If the descriptor is for the reverse reaction, the slope has to\n        # be modified\n        if 'rev_delta' in self.descriptor:", "        try:\n            return self._adj_slopes[(rev, self.slope)]\n        except KeyError:\n            pass\n        if 'rev_delta' in self.descriptor:"),
+               (B_, "                adj_slope = self.slope\n        return adj_slope", "                adj_slope = self.slope\n        self._adj_slopes[(rev, self.slope)] = adj_slope\n        return adj_slope")]},
 ]
 PENDING_MUTANTS = []
 # behaviour-preserving rewrites of the same round (whitebox2/C09_B1..B3), reduced: must stay silent
